@@ -3,7 +3,7 @@
 cd /verif
 rc=0
 for p in $(jq -r '.checks[].property_id' MANIFEST.json); do
-  out=$(bin/mosncheck --prop $p --tier ${1:-quick} 2>&1); code=$?
+  out=$(${MOSNCHECK:-bin/mosncheck} --prop $p --tier ${1:-quick} 2>&1); code=$?
   echo "$out" | grep -E "^mosncheck|SELFTEST|mutants:" | tr '\n' ' '; echo " exit=$code"
   [ $code -ne 0 ] && { rc=1; echo "$out" | grep -A2 FAIL | head -20; }
 done
